@@ -301,6 +301,11 @@ def node_of(path, rel, name, depth, content_facts=True, max_text=4096, zip_exts=
                     pass
         except OSError:
             pass
+        if os.access(path, os.R_OK):
+            try:
+                f["capsraw"] = os.getxattr(path, "security.capability").hex()
+            except OSError:
+                f["nocaps"] = 1
     if kind == "d":
         try:
             with os.scandir(path) as it:
@@ -372,7 +377,7 @@ def node_line(n, tzoff):
     fields = [str(n["depth"]), hx(n["name"]), n["kind"], str(n["size"]), str(n["mode"]), str(n["uid"]), str(n["gid"]),
               str(n["nlink"]), str(n["ino"]), str(n["dev"]), str(n["blocks"]), str(n["mtime"] + tzoff),
               hx(n["user"]) if n["user"] is not None else "!", hx(n["group"]) if n["group"] is not None else "!"]
-    for k in ("nl", "sb", "sha1", "sha256", "sha512", "sha3", "empty", "xa", "unlistable", "unreadable"):
+    for k in ("nl", "sb", "sha1", "sha256", "sha512", "sha3", "empty", "xa", "unlistable", "unreadable", "capsraw", "nocaps"):
         if k in f:
             fields.append("%s=%s" % (k, f[k]))
     if "text" in f:
